@@ -14,7 +14,7 @@ RULE = ("random commit DAGs (3-25 commits, 7% extra roots, 25% merges, parents a
         "branches with names exercising numeric-aware order (release/1.2, 1.10, 9.9, 10.1, 2.0, 2-9, 2-10, 3_1, 3_10, rc-2, rc-10, master/main), "
         "heads 80% recent / 20% anywhere (so heads coincide with or lie inside other branches), build tags "
         "on 35% of commits (sometimes two tags on one commit), three kinds of messages (BUG-7, BUG-71, also "
-        "in the message body), commit times within one day, 1-3 search texts per history (half of the histories on one long-lived collection). Oracle: "
+        "in the message body), commit times minutes apart or spread over up to 29 days, default or project-specific build tag pattern (a ProjectRepo subclass overriding the class-level pattern), 1-3 search texts per history (half of the histories on one long-lived collection). Oracle: "
         "reachability on the DAG computed by the harness; per branch every matching commit must be listed "
         "as the property states (minimal containing build, never 'not merged' when reachable, exactly once "
         "under 'not merged' when only reachable from a lower-sorted branch), reported builds must be builds "
@@ -23,7 +23,7 @@ RULE = ("random commit DAGs (3-25 commits, 7% extra roots, 25% merges, parents a
         "lower-sorted branch, or with a merge of two tagged sub-branches, or with >=3 branches; distinct by "
         "(history, search text).")
 ASSUMPTIONS = ["with parallel tagged sub-branches any minimal containing build is accepted",
-               "all commit times lie within one day (inside the 30-day obsolete-branch window)"]
+               "all commit times lie within 29 days (inside the 30-day obsolete-branch window)"]
 TIERS = {
     "quick": {"shards": 4, "cases": 1500, "timeout": 300},
     "thorough": {"shards": 16, "cases": 5000, "timeout": 3000},
@@ -37,8 +37,8 @@ LEVEL_TEXT = ("Runtime exploration with a graph oracle: the real report builder 
               "repositories (own GitPython mock, several roots allowed) and each (branch, matching commit) "
               "decision is re-derived by plain reachability on the DAG; the printed report is parsed back and "
               "compared with the data it was printed from.")
-LEVEL_NOTE = ("Histories <= 25 commits and <= 4 branches; default tag-based build detection only; commit times "
-              "inside one day.")
+LEVEL_NOTE = ("Histories <= 25 commits and <= 4 branches; tag-based build detection (default and project-specific pattern); commit "
+              "times inside 29 days.")
 TECHNIQUE = "runtime monitoring: DAG-reachability oracle over generated commit histories, report parsed back"
 
 BRANCH_NAMES = ["origin/release/1.0", "origin/release/1.10", "origin/release/1.2", "origin/release/2.0",
@@ -53,6 +53,9 @@ def gen_history(rng, max_commits=25):
     commits = {}
     ids = list(range(1, n + 1))
     base = 1_600_000_000
+    # commit times: minutes apart, or spread over days (always inside the 30-day window)
+    step = 60 if rng.random() < 0.6 else rng.randint(3600, (29 * 86400) // n)
+    ci_tags = rng.random() < 0.25     # the project uses its own build tag format
     for cid in ids:
         earlier = ids[:cid - 1]
         if not earlier or rng.random() < 0.07:
@@ -70,7 +73,7 @@ def gen_history(rng, max_commits=25):
             msg = "misc %d\n\nrelated to BUG-7 fix" % cid
         else:
             msg = "misc %d" % cid
-        commits[cid] = mg.Commit("r", cid, [commits[p] for p in ps], msg, base + cid * 60, {})
+        commits[cid] = mg.Commit("r", cid, [commits[p] for p in ps], msg, base + cid * step, {})
     names = rng.sample(BRANCH_NAMES, rng.randint(1, 4))
     if "origin/master" in names and "origin/main" in names:
         names.remove("origin/main")
@@ -91,7 +94,8 @@ def gen_history(rng, max_commits=25):
                 bn += 1
                 if rng.random() < 0.04:
                     bn = max(bn, rng.choice([8887, 8888, 9998, 9999]))   # numbers that look like the reserved ones
-                tags[f"build_{bn}_release_{rng.randint(1, 3)}_{rng.randint(0, 3)}_success"] = cid
+                rel = f"release_{rng.randint(1, 3)}_{rng.randint(0, 3)}"
+                tags[f"ci-{bn}-{rel}-ok" if ci_tags else f"build_{bn}_{rel}_success"] = cid
     return mg.Repo("r", commits, heads, tags)
 
 
@@ -125,7 +129,7 @@ def judge(ctx, repo, text, case, repos=None):
     matching = {cid for cid, c in repo.commits.items() if text in c.message}
     try:
         if repos is None:
-            repos = ReposCollection({'r': mg.TRepo('r', repo, 'origin')})
+            repos = ReposCollection({'r': mg.repo_for('r', repo)})
         else:
             ctx.count("reports_on_a_reused_collection")
         (rid, rgraph), = repos.make_reports_data(text)
@@ -261,7 +265,7 @@ def run_shard(ctx):
         descr = mg.describe(repo)
         texts = rng.sample(TEXTS, rng.randint(1, 3))
         # half of the histories are reported by ONE long-lived collection asked for several texts
-        shared = ReposCollection({'r': mg.TRepo('r', repo, 'origin')}) if rng.random() < 0.5 else None
+        shared = ReposCollection({'r': mg.repo_for('r', repo)}) if rng.random() < 0.5 else None
         for k, text in enumerate(texts):
             judge(ctx, repo, text, {"repo": descr, "text": text, "earlier_texts_on_same_collection":
                                     texts[:k] if shared is not None else []}, shared)
@@ -276,7 +280,7 @@ def replay(ctx, case):
     earlier = case.get("earlier_texts_on_same_collection") or []
     shared = None
     if earlier:
-        shared = ReposCollection({'r': mg.TRepo('r', repo, 'origin')})
+        shared = ReposCollection({'r': mg.repo_for('r', repo)})
         for t in earlier:
             shared.make_reports_data(t)
             shared.make_report(t)
